@@ -186,6 +186,14 @@ func (m *Machine) callFn(fn *ssa.Function, args []Value, env []Value, site ssa.I
 	}
 	g := m.cur
 	g.depth++
+	if m.race != nil {
+		g.stack = append(g.stack, fn)
+		defer func() {
+			if len(g.stack) > 0 {
+				g.stack = g.stack[:len(g.stack)-1]
+			}
+		}()
+	}
 	if g.depth > 1000 {
 		// unbounded recursion: natively the program dies with a stack overflow
 		g.depth = 0
@@ -303,11 +311,17 @@ func (m *Machine) runFrame(fr *frame) {
 				if p == nil {
 					panic(goPanic{msg: "nil pointer dereference (store)"})
 				}
+				if m.race != nil {
+					m.logAccess(true, p, "store")
+				}
 				*p = copyVal(m.get(fr, x.Val))
 			case *ssa.MapUpdate:
 				mp := m.get(fr, x.Map).(*Map)
 				if mp == nil {
 					panic(goPanic{msg: "assignment to entry in nil map"})
+				}
+				if m.race != nil {
+					m.logAccess(true, mp, "map assign")
 				}
 				m.mapSet(mp, m.get(fr, x.Key), copyVal(m.get(fr, x.Value)))
 			case ssa.Value:
@@ -493,6 +507,9 @@ func (m *Machine) evalValue(fr *frame, v ssa.Value) Value {
 		key := m.get(fr, x.Index)
 		switch b := base.(type) {
 		case *Map:
+			if m.race != nil && b != nil {
+				m.logAccess(false, b, "map read")
+			}
 			val, ok := m.mapGet(b, key)
 			if !ok {
 				val = zero(x.X.Type().Underlying().(*types.Map).Elem())
@@ -541,6 +558,9 @@ func (m *Machine) unop(fr *frame, x *ssa.UnOp) Value {
 		p := v.(*Value)
 		if p == nil {
 			panic(goPanic{msg: fmt.Sprintf("nil pointer dereference in %s", fr.fn)})
+		}
+		if m.race != nil {
+			m.logAccess(false, p, "load")
 		}
 		return copyVal(*p)
 	case token.ARROW:
@@ -669,6 +689,9 @@ func (m *Machine) callBuiltin(b *ssa.Builtin, args []Value, site *ssa.Call) Valu
 		case Array:
 			return int64(len(x))
 		case *Map:
+			if m.race != nil && x != nil {
+				m.logAccess(false, x, "map len")
+			}
 			return int64(x.Len())
 		case *Chan:
 			if x == nil {
@@ -757,6 +780,9 @@ func (m *Machine) callBuiltin(b *ssa.Builtin, args []Value, site *ssa.Call) Valu
 	case "delete":
 		mp := args[0].(*Map)
 		if mp != nil {
+			if m.race != nil {
+				m.logAccess(true, mp, "map delete")
+			}
 			m.mapDelete(mp, args[1])
 		}
 		return nil
@@ -870,6 +896,9 @@ func (m *Machine) rangeOver(fr *frame, x *ssa.Range) Value {
 	switch b := v.(type) {
 	case *Map:
 		it := &mapIter{m: b}
+		if m.race != nil && b != nil {
+			m.logAccess(false, b, "map range")
+		}
 		if b != nil {
 			n := len(b.keys)
 			order := make([]int, n)
